@@ -14,12 +14,13 @@ Theorem C08_fit_state_is_result : forall m opt bd s n v,
 Proof. exact fit_state_is_result. Qed.
 Print Assumptions C08_fit_state_is_result.
 
-(* the result lists every variable (scipy branches) resp. every trainable variable (iminuit) *)
+(* the result lists every variable, in every branch (iminuit: since patch_1 of the C08 hunt; the old branch listed the
+   trainable ones only, see C08_minuit_old_save_load_refuted) *)
 Theorem C08_result_names : forall opt bd s,
   map fst (r_params (snd (fit M_bfgs opt bd s))) = allnames s /\
   map fst (r_params (snd (fit M_lbfgsb opt bd s))) = allnames s /\
   map fst (r_params (snd (fit M_newton opt bd s))) = allnames s /\
-  map fst (r_params (snd (fit M_minuit opt bd s))) = train s.
+  map fst (r_params (snd (fit M_minuit opt bd s))) = allnames s.
 Proof. exact result_lists_all_names. Qed.
 Print Assumptions C08_result_names.
 
@@ -118,6 +119,69 @@ Theorem C08_save_load_identity : forall (s t : st) neg n,
   read (load (save s) neg t) n = read s n.
 Proof. exact save_load_identity. Qed.
 Print Assumptions C08_save_load_identity.
+
+(* the RESULT of any branch (iminuit included), written to a file and loaded into a freshly built model with the same variables
+   and ties, brings that model to the fitted point - whatever the fresh model's fixed values were *)
+Theorem C08_result_save_load : forall m opt bd (s t : st) neg n,
+  cellof t = cellof s -> allnames t = allnames s -> In n (allnames s) ->
+  (forall k, mem k neg = true -> read t k = read (fst (fit m opt bd s)) k) ->
+  read (load (r_params (snd (fit m opt bd s))) neg t) n = read (fst (fit m opt bd s)) n.
+Proof. exact result_save_load. Qed.
+Print Assumptions C08_result_save_load.
+
+(* the iminuit branch BEFORE the repair: a fixed name is absent from the result and the fresh model keeps its own value *)
+Theorem C08_minuit_old_save_load_refuted :
+  cellof ex_m_t = cellof ex_m_s /\ allnames ex_m_t = allnames ex_m_s /\ In 0%nat (allnames ex_m_s) /\
+  ~ In 0%nat (map fst (r_params (snd (fit_minuit_old (fun _ => ([1], 0)) [] ex_m_s)))) /\
+  read (load (r_params (snd (fit_minuit_old (fun _ => ([1], 0)) [] ex_m_s))) [] ex_m_t) 0%nat
+    <> read (fst (fit_minuit_old (fun _ => ([1], 0)) [] ex_m_s)) 0%nat.
+Proof. exact minuit_old_save_load_refuted. Qed.
+Print Assumptions C08_minuit_old_save_load_refuted.
+
+(* a BFGS / CG fit stopped by the library's own guard (LargeNumberError -> except_result): same bookkeeping as the Newton
+   branches (so every theorem about [fit M_newton] holds for it), in particular bnd_dic is empty again ... *)
+Theorem C08_except_is_newton_bookkeeping : fit_except = fit M_newton.
+Proof. exact fit_except_is_newton. Qed.
+Theorem C08_except_bnd_empty : forall opt bd s, bnd (fst (fit_except opt bd s)) = [].
+Proof. exact except_bnd_empty. Qed.
+Print Assumptions C08_except_bnd_empty.
+(* ... which the early return did NOT do before the repair (patch_7): every declared bound stayed registered *)
+Theorem C08_except_old_leaks_bounds_refuted : forall opt bd s, bd <> [] -> bnd (fst (fit_except_old opt bd s)) <> [].
+Proof. exact except_old_leaks_bounds. Qed.
+Print Assumptions C08_except_old_leaks_bounds_refuted.
+
+(* bounds declared on ANY member of a tie (fit.py _trainable_bounds, patch_6): every configured entry (k, b) is enforced
+   through the entry of the listed name of k's cell, which is at least as tight *)
+Theorem C08_norm_bounds_refines : forall s bd k b,
+  In (k, b) bd -> exists b', lookup (norm_bounds s bd) (head_of s k) = Some b' /\ (forall y, in_bound b' y -> in_bound b y).
+Proof. exact norm_bounds_refines. Qed.
+Print Assumptions C08_norm_bounds_refines.
+
+Theorem C08_tied_bounded_inside_transforming : forall (newton : bool) opt bd s i n k b,
+  let m := if newton then M_newton else M_bfgs in
+  NoDup (map (cellof s) (train s)) -> nth_error (train s) i = Some n -> cellof s k = cellof s n -> In (k, b) bd ->
+  (forall b', lookup (norm_bounds s bd) n = Some b' -> bound_ok b') ->
+  length (fst (opt (set_bound s (norm_bounds s bd)))) = length (train s) -> polar_untied s n ->
+  in_bound b (read (fst (fit_cfg m opt bd s)) k).
+Proof. exact tied_bounded_inside_transforming. Qed.
+Print Assumptions C08_tied_bounded_inside_transforming.
+
+Theorem C08_tied_bounded_inside_box : forall (minuit : bool) opt bd s i n k b,
+  let m := if minuit then M_minuit else M_lbfgsb in
+  NoDup (map (cellof s) (train s)) -> nth_error (train s) i = Some n -> cellof s k = cellof s n -> In (k, b) bd ->
+  length (fst (opt s)) = length (train s) -> polar_untied s n ->
+  (forall b', lookup (norm_bounds s bd) n = Some b' -> in_bound b' (nth i (fst (opt s)) 0)) ->
+  in_bound b (read (fst (fit_cfg m opt bd s)) k).
+Proof. exact tied_bounded_inside_box. Qed.
+Print Assumptions C08_tied_bounded_inside_box.
+
+(* before the repair the dictionary was used as given: with the bound [0, 1] on the non-listed member of a tie the shared value
+   is whatever the optimiser answers (first part: old = [fit] on the raw dictionary); now it is inside (second part) *)
+Theorem C08_tied_bound_old_ignored_refuted : forall x f,
+  read (fst (fit M_bfgs (fun _ => ([x], f)) [(1%nat, (Some 0, Some 1))] ex_t_s)) 1%nat = x /\
+  0 <= read (fst (fit_cfg M_bfgs (fun _ => ([x], f)) [(1%nat, (Some 0, Some 1))] ex_t_s)) 1%nat <= 1.
+Proof. exact tied_bound_old_ignored. Qed.
+Print Assumptions C08_tied_bound_old_ignored_refuted.
 
 (* ---- for the record: before the repair standard_complex flipped a FIXED negative radius; now it does not ---- *)
 Example C08_std_before_fix_flips_fixed :
